@@ -121,6 +121,18 @@ def mk_Identity(rng, ishape, maxn):
     return {"op": "Identity", "ishape": ishape, "oshape": list(ishape)}
 
 
+def mk_ToDevice(rng, ishape, maxn):
+    ishape = ishape or _shape(rng, int(rng.integers(1, 4)), maxn)
+    return {"op": "ToDevice", "ishape": ishape, "oshape": list(ishape)}
+
+
+def mk_AllReduce(rng, ishape, maxn):
+    # single-rank communicator (no MPI in the sandbox): the reduction is the identity
+    ishape = ishape or _shape(rng, int(rng.integers(1, 4)), maxn)
+    return {"op": "AllReduce", "ishape": ishape, "oshape": list(ishape),
+            "in_place": bool(rng.random() < 0.5)}
+
+
 def mk_Reshape(rng, ishape, maxn):
     ishape = ishape or _shape(rng, int(rng.integers(1, 4)), maxn)
     n = _prod(ishape)
@@ -659,11 +671,11 @@ MAKERS = {
     "NUFFTAdjoint": mk_NUFFTAdjoint, "ConvolveData": mk_ConvolveData,
     "ConvolveFilter": mk_ConvolveFilter, "Slice": mk_Slice, "Embed": mk_Embed,
     "Sense": mk_Sense, "ConvSense": mk_ConvSense, "ConvImage": mk_ConvImage,
-    "PtxSpatialExplicit": mk_Ptx,
+    "PtxSpatialExplicit": mk_Ptx, "ToDevice": mk_ToDevice, "AllReduce": mk_AllReduce,
 }
 LEAF_KINDS = list(MAKERS)
 # kinds that can be generated for a prescribed input shape (used inside trees)
-ADAPTABLE = ["Identity", "Reshape", "Transpose", "FFT", "IFFT", "MatMul", "RightMatMul",
+ADAPTABLE = ["Identity", "ToDevice", "AllReduce", "Reshape", "Transpose", "FFT", "IFFT", "MatMul", "RightMatMul",
              "Multiply", "Interpolate", "Gridding", "Resize", "Flip", "Downsample",
              "Upsample", "Circshift", "Sum", "Tile", "ArrayToBlocks", "FiniteDifference",
              "NUFFT", "ConvolveData", "ConvolveFilter", "Slice"]
@@ -1020,6 +1032,10 @@ def build(d):
     arr = leaf_arrays(d) if "aseed" in d else {}
     if op == "Identity":
         return L.Identity(d["ishape"])
+    if op == "ToDevice":
+        return L.ToDevice(d["ishape"], sp.cpu_device, sp.cpu_device)
+    if op == "AllReduce":
+        return L.AllReduce(d["ishape"], sp.Communicator(), in_place=d["in_place"])
     if op == "Reshape":
         return L.Reshape(d["oshape"], d["ishape"])
     if op == "Transpose":
